@@ -128,3 +128,24 @@ Definition bn_from_text_pol (checked : bool) (s : str) : tlit :=
   .
 
 Definition bn_from_text := bn_from_text_pol literal_match_checked.
+
+(* ---- specification side: the declared shape of a binary / hexadecimal literal text and of its captures ---- *)
+(* exponent part: nothing, or [pP] [+-]? [0-9]+ captured without the mark *)
+Definition exp_shape (et : str) (e : option str) : Prop :=
+  (e = None /\ et = []) \/
+  (exists pc sg ds, et = pc :: sg ++ ds /\ (pc = 112 \/ pc = 80) /\ (sg = [] \/ sg = [45] \/ sg = [43]) /\ ds <> [] /\
+                    forallb is_digit ds = true /\ e = Some (sg ++ ds)).
+Definition mant_shape (isdig : Z -> bool) (mt int : str) (frac : option str) : Prop :=
+  (int <> [] /\ forallb isdig int = true /\ mt = int /\ frac = None) \/
+  (exists f, int <> [] /\ forallb isdig int = true /\ forallb isdig f = true /\ mt = int ++ 46 :: f /\
+             frac = Some (if nonempty f then f else [48])) \/
+  (exists f, f <> [] /\ forallb isdig f = true /\ mt = 46 :: f /\ int = [48] /\ frac = Some f).
+
+(* what the determinism of the PEG needs of the digit class: the point and the exponent mark are not digits *)
+Definition digit_class_ok (isdig : Z -> bool) : Prop := isdig 46 = false /\ isdig 112 = false /\ isdig 80 = false.
+
+(* sign? "0" mark mantissa exponent, with the captures (neg, int, frac, e) *)
+Definition lit_shape (isdig : Z -> bool) (m1 m2 : Z) (s : str) (neg : bool) (int : str) (frac e : option str) : Prop :=
+  exists sg m mt et, s = sg ++ 48 :: m :: mt ++ et /\ (m = m1 \/ m = m2) /\
+    ((neg = true /\ sg = [45]) \/ (neg = false /\ (sg = [43] \/ sg = []))) /\
+    mant_shape isdig mt int frac /\ exp_shape et e.
